@@ -4,9 +4,12 @@
    keys) and Model/Levy.v (the Levy step over the reals, guarded denotation, Gamma uninterpreted).
    Regenerated from /repo on every check by translate/t4_prims.py: Gen/PrimsDescr.v (TOURNAMENT_SIZE, the two
    wrappers of math/random.py, the Bernoulli loop) and Gen/LevyExpr.v (the expression of
-   generate_levy_distribution).  The random stream is a universally quantified list of answers; what NumPy's
+   generate_levy_distribution); by translate/t_sel.py: Gen/SelDescr.v (the bodies of tournament_selection and
+   pairwise in the language of Model/SelDescr.v; Model/SelModel.v proves that interpreting the model's own
+   descriptions is Model.Prims.tournament / pairwise for every input).  The random stream is a universally quantified list of answers; what NumPy's
    generator guarantees about its answers is a hypothesis, never an axiom. *)
 From Coq Require Import String Reals Lra ZArith List Bool.
+From OV Require Import Model.SelDescr Model.SelModel Gen.SelDescr.
 From OV Require Import Base.FloatKey Model.Prims Model.Levy Gen.PrimsDescr Gen.LevyExpr.
 Import ListNotations.
 
@@ -54,6 +57,19 @@ Proof. exact bern_draw_spec. Qed.
 Theorem C18_tournament_size_regenerated_positive : (1 <= tournament_size)%nat.
 Proof. vm_compute. repeat constructor. Qed.
 
+(* the body of tournament_selection in the CURRENT source (regenerated: accumulator, `for _ in range(n)`, the
+   comprehension of TOURNAMENT_SIZE calls of np.random.choice(fitness), min(step), np.where(min(step) == fitness)[0][0],
+   the append, the return) is the description the model function was proved to interpret ... *)
+Theorem C18_tournament_source_is_model : tournament_src = tournament_descr.
+Proof. reflexivity. Qed.
+
+(* ... hence [tournament tournament_size] below IS the interpretation of the source: for every fitness list, every n
+   and every script of draws (a draw = the POSITION np.random.choice picks; it answers with the fitness there), the
+   runs that end with None (script exhausted, position outside the list) included *)
+Theorem C18_tournament_is_source : forall fit n draws,
+  run_tournament tournament_size tournament_src fit n draws = tournament tournament_size fit n draws.
+Proof. intros. rewrite C18_tournament_source_is_model. apply tournament_is_descr. Qed.
+
 (* n indices; the r-th is a valid position, holds the minimum fitness among the TOURNAMENT_SIZE individuals
    drawn in round r, and is the first position of the fitness list holding that value; the draws are
    consumed in order, TOURNAMENT_SIZE per round.  Fitness values are float keys (no NaN); IEEE equality
@@ -75,6 +91,15 @@ Theorem C18_tournament_needs_n_rounds_of_draws : forall fit n draws,
 Proof. intros. apply tournament_short; [apply C18_tournament_size_regenerated_positive | assumption]. Qed.
 
 (* ================================================================== pairwise *)
+(* the body of pairwise in the current source (iter(values); iter(lambda: tuple(islice(iterator, 2)), ())) is the
+   description whose interpretation -- the tuples the returned iterator yields until it stops -- is [pairwise] *)
+Theorem C18_pairwise_source_is_model : pairwise_src = pairwise_descr.
+Proof. reflexivity. Qed.
+
+Theorem C18_pairwise_is_source : forall ts (l : list Z),
+  run_pairwise ts pairwise_src (map AKey l) = Some (map (fun c => VTuple (map AKey c)) (pairwise l)).
+Proof. intros. rewrite C18_pairwise_source_is_model. apply pairwise_is_descr_keys. Qed.
+
 Theorem C18_pairwise_chunks_concatenate_to_input : forall (l : list Z), concat (pairwise l) = l.
 Proof. exact pairwise_concat. Qed.
 
